@@ -12,6 +12,7 @@
  */
 
 #include "cppStructType.h"
+#include <set>
 #include "cppConstType.h"
 #include "cppTypedefType.h"
 #include "cppReferenceType.h"
@@ -1342,6 +1343,14 @@ substitute_decl(CPPDeclaration::SubstDecl &subst,
  */
 void CPPStructType::
 output(std::ostream &out, int indent_level, CPPScope *scope, bool complete) const {
+  // A class can appear in its own body (in an instantiated template, a member
+  // typedef of the class itself has been replaced by the class): within the
+  // body, the name is all that is written.
+  static std::set<const CPPStructType *> writing_body;
+  if (complete && _ident != nullptr && writing_body.count(this) != 0) {
+    complete = false;
+  }
+
   if (!complete && _ident != nullptr) {
     // If we have a name, use it.
     if (cppparser_output_class_keyword) {
@@ -1385,7 +1394,11 @@ output(std::ostream &out, int indent_level, CPPScope *scope, bool complete) cons
     }
 
     out << " {\n";
+    bool inserted = writing_body.insert(this).second;
     _scope->write(out, indent_level + 2, _scope);
+    if (inserted) {
+      writing_body.erase(this);
+    }
     indent(out, indent_level) << "}";
   }
 }
